@@ -6,9 +6,12 @@ def run(prop, tier):
     if prop in ("C09", "C10", "C14"):
         import p1
         return p1.judge(prop, tier)
-    if prop in ("C01", "C02", "C03", "C04", "C05", "C06", "C08", "C16"):
+    if prop in ("C01", "C02", "C03", "C04", "C05", "C06", "C07", "C08", "C16"):
         import p2
         return p2.judge(prop, tier)
+    if prop in ("C17", "C18"):
+        import p5
+        return p5.judge(prop, tier)
     if prop == "C19":
         import p6
         return p6.judge(prop, tier)
@@ -25,9 +28,12 @@ def replay(prop, path):
     if prop in ("C09", "C10", "C14"):
         import p1
         return p1.replay(prop, path)
-    if prop in ("C01", "C02", "C03", "C04", "C05", "C06", "C08", "C16"):
+    if prop in ("C01", "C02", "C03", "C04", "C05", "C06", "C07", "C08", "C16"):
         import p2
         return p2.replay(prop, path)
+    if prop in ("C17", "C18"):
+        import p5
+        return p5.replay(prop, path)
     if prop == "C19":
         import p6
         return p6.replay(prop, path)
